@@ -112,6 +112,17 @@ class WakeSummaries:
         return self.memo[key]
 
 
+def STALE_OK(body, it, field):
+    """is a state change that FOLLOWS the take of `field`'s waker still safe?  Yes when the guard through which the waker was taken is the
+    lock the change itself is made under (plain field store through the same guard): the waiter cannot run in between."""
+    if isinstance(it, Stmt) and it.place.proj:
+        from .prov import place_fields
+        f, _, _ = place_fields(body, it.place)
+        owner = field.rsplit(".", 1)[0]
+        return bool(f) and f[-1].rsplit(".", 1)[0] == owner
+    return False
+
+
 def _run(body, field, event, edge_event, init_owed, summaries):
     zt = ZeroTracker(body)
     nev = [0]
@@ -132,13 +143,18 @@ def _run(body, field, event, edge_event, init_owed, summaries):
             owed = True
             if w in ("woken", "nobody"):
                 w = "none"
+            elif w in ("taken", "some"):
+                # the slot was emptied BEFORE the state change: a waiter that checks the old state in between re-registers into the
+                # emptied slot and the wake below goes to the old waker only (lost wake-up) - unless both happen under the waiter's lock
+                w = "stale" if not STALE_OK(body, it, field) else w
             changed = True
         if is_take_on(body, it, field):
             w = "taken"
             changed = True
         elif is_wake_of(body, it, field):
-            w = "woken"
-            changed = True
+            if w != "stale":
+                w = "woken"
+                changed = True
         elif isinstance(it, Term) and it.kind == "call" and it.j.get("res_local") and summaries is not None:
             callee = it.resolved
             if callee != body.name and summaries.always_wakes(callee, field):
@@ -156,7 +172,7 @@ def _run(body, field, event, edge_event, init_owed, summaries):
             c, var = variant_of_edge(body, term, label)
             if c is not None and var is not None:
                 t = c.trace
-                if t.kind == "call" and not t.fields and call_on_field(body, t.root[1], ("Option::take",), field):
+                if t.kind == "call" and not t.fields and call_on_field(body, t.root[1], ("Option::take",), field) and w != "stale":
                     if var == "None":
                         w = "nobody"
                     elif var == "Some":
@@ -166,6 +182,8 @@ def _run(body, field, event, edge_event, init_owed, summaries):
                 owed = True
                 if w in ("woken", "nobody"):
                     w = "none"
+                elif w in ("taken", "some"):
+                    w = "stale"
         return [(owed, w, z, cls)]
 
     init = [(bool(init_owed), "none", frozenset(), None)]
@@ -192,7 +210,7 @@ def check_wake(R, body, instance, field, event=None, edge_event=None, init_owed=
     if not bad:
         R.ok(instance, body.name, "%s => take+wake(%s) on all %d checked exit states" % (what, field, nexits))
     for (cls, w), (bb, s) in sorted(bad.items(), key=str):
-        why = {"none": "no-wake", "taken": "taken-not-woken", "some": "some-branch-without-wake"}[w]
+        why = {"none": "no-wake", "taken": "taken-not-woken", "some": "some-branch-without-wake", "stale": "waker-taken-before-the-change"}[w]
         R.fail([body.name, what, "%s(%s)" % (why, field), "exit=%s" % cls],
                "%s: after %s an exit (%s) is reachable without waking %s (%s) - the counterpart task may sleep forever" % (body.name, what, cls, field, why),
                where=body.where(), witness=res.witness_lines(bb, s), instance=instance)
